@@ -163,6 +163,12 @@ def main(argv=None):
         except Exception as e:
             import traceback
             crashes.append(("thorough", repr(e), traceback.format_exc()[-2000:]))
+        for (oname, what) in extra.get("known", []):
+            k = harness.match_known(known, pid, "bounded", oname)
+            if k is not None:
+                print(f"KNOWN-FINDING: property={pid} {oname} (bounded): {k['what']} -- this run: {what}")
+            else:
+                crashes.append(("thorough", f"bounded stand-in reports an unlisted finding {oname}: {what}", ""))
         for v in extra.get("violations", []):
             vio_lines.append(f"VIOLATION property={pid} replay={v}")
         for u in extra.get("broken", []):
